@@ -121,3 +121,43 @@ Proof.
   rewrite E' in Hnd. destruct (NoDup_app_elim _ _ Hnd) as (_ & _ & Hd).
   apply (Hd n Hn1). right. apply in_elt.
 Qed.
+
+(* ---------- completeness: graphlib.CycleError is raised only for cyclic definitions ---------- *)
+(* ODE.sorted_assignments returns an order exactly when the assignments can be ranked so that every
+   assignment ranks above everything it reads, i.e. exactly when the definitions are acyclic; in
+   particular the outcome does not depend on the order in which the assignments were written. *)
+Theorem sorted_names_iff_ranked o ru :
+  (exists ord, sorted_names o ru = Some ord)
+  <-> exists rank : string -> nat,
+        forall n d, In n (all_assign_names o) -> In d (deps_of o n) -> rank d < rank n.
+Proof.
+  rewrite <- (build_order_iff_ranked (deps_of o) (all_assign_names o)).
+  unfold sorted_names. rewrite build_graph_is_build.
+  destruct (static_order (build (deps_of o) (all_assign_names o) [])) as [ord0|].
+  - split; intros _; eexists; reflexivity.
+  - split; intros [ord H]; discriminate.
+Qed.
+
+(* a model whose assignments only read earlier lines of some listing of them is always ordered *)
+Corollary listed_in_dependency_order_is_sorted o ru (listing : list string) :
+  NoDup listing ->
+  (forall n, In n (all_assign_names o) -> In n listing) ->
+  (forall pre n post, listing = pre ++ n :: post -> In n (all_assign_names o) ->
+     forall d, In d (deps_of o n) -> In d (all_assign_names o) -> In d pre) ->
+  exists ord, sorted_names o ru = Some ord.
+Proof.
+  intros Hnd Hall Hpre. apply sorted_names_iff_ranked.
+  exists (fun x => if mem x (all_assign_names o)
+                   then match index_of x listing with Some i => S i | None => 0 end else 0).
+  intros n d Hn Hd.
+  assert (Hmn : mem n (all_assign_names o) = true) by (apply mem_In; exact Hn).
+  rewrite Hmn.
+  pose proof (Hall n Hn) as Hin. apply in_split in Hin. destruct Hin as [pre [post E]].
+  destruct (index_of n listing) as [j|] eqn:Ej.
+  2:{ apply index_of_None in Ej. exfalso. apply Ej. rewrite E. apply in_elt. }
+  destruct (mem d (all_assign_names o)) eqn:Emd; [|lia].
+  apply mem_In in Emd. pose proof (Hpre pre n post E Hn d Hd Emd) as Hdp.
+  destruct (index_of d listing) as [i|] eqn:Ei.
+  2:{ apply index_of_None in Ei. exfalso. apply Ei. rewrite E. apply in_or_app. left. exact Hdp. }
+  pose proof (index_split_lt listing pre post n d Hnd E Hdp i j Ei Ej). lia.
+Qed.
